@@ -36,6 +36,37 @@ func ctxTranslators(p *core.Prog) []*ssa.Function {
 			out = append(out, fn)
 		}
 	}
+	// wrappers: func(error) error that hands its argument to a translator and never returns it raw
+	base := append([]*ssa.Function(nil), out...)
+	for _, fn := range p.LibFuncs("") {
+		if fn.Parent() != nil || fn.Signature.Recv() != nil || len(fn.Params) != 1 || fn.Signature.Results().Len() != 1 || fn.Blocks == nil {
+			continue
+		}
+		if !core.IsErrorType(fn.Params[0].Type()) || !core.IsErrorType(fn.Signature.Results().At(0).Type()) {
+			continue
+		}
+		isBase := false
+		for _, b := range base {
+			if b == fn {
+				isBase = true
+			}
+		}
+		if isBase {
+			continue
+		}
+		translates := len(core.CallsIn(fn, func(call *ssa.Call, _ core.CallInfo) bool {
+			return isTranslatorCall(&call.Call, base) && len(call.Call.Args) == 1 && core.OriginIs(call.Call.Args[0], func(o ssa.Value) bool { return o == ssa.Value(fn.Params[0]) })
+		})) > 0
+		raw := false
+		for _, r := range core.Returns(fn) {
+			if core.OriginIs(r.Results[0], func(o ssa.Value) bool { return o == ssa.Value(fn.Params[0]) }) {
+				raw = true
+			}
+		}
+		if translates && !raw {
+			out = append(out, fn)
+		}
+	}
 	return out
 }
 
